@@ -54,6 +54,13 @@ RunVerdict ==
        THEN LET j == CHOOSE j \in 1..Len(T.present) :
                         T.present[j].present # Eff(CHOOSE x \in SetOf(cfg.decls) : x.name = T.present[j].decl, T.present[j].lang)
             IN <<"REJECT", "declaration presence does not follow its wrap flag", T.present[j]>>
+  \* a namespace whose wrapper for a language is off (with nothing inside that turns it on again) gets no file of
+  \* that language; one whose wrapper is on gets its file
+  ELSE IF \E j \in 1..Len(T.scopes) : \E w \in written : w.file = T.scopes[j].file /\ ~T.scopes[j].on
+       THEN <<"REJECT", "a file was written for a namespace whose wrapper is switched off",
+              (CHOOSE j \in 1..Len(T.scopes) : \E w \in written : w.file = T.scopes[j].file /\ ~T.scopes[j].on)>>
+  ELSE IF \E j \in 1..Len(T.scopes) : T.scopes[j].on /\ ~\E w \in written : w.file = T.scopes[j].file
+       THEN <<"REJECT", "no file was written for a namespace whose wrapper is on">>
   ELSE <<"ACCEPT", "ok">>
 
 ToggleVerdict ==
